@@ -137,6 +137,21 @@ class DecShapes:
                 else:
                     out.append(('opaque', 'decode through ' + mode))
             elif k == 'alt':
+                term_arms = [(d, x) for d, x in e[2] if _terminates(x)]
+                if term_arms and not all(_pure_err(x) for d, x in term_arms) and isinstance(e[1], tuple) and e[1] and e[1][0] == 'if':
+                    # early return: the rest of the sequence belongs only to the arms that fall through
+                    rest = self.term_shape(sym.cat(*its[i + 1:]), impl, fn)
+                    res = []
+                    for d, x in e[2]:
+                        if _pure_err(x):
+                            continue
+                        a = self.term_shape(x, impl, fn)
+                        res.append(a if _terminates(x) else shape.wcat([a, rest]))
+                    if res and len({repr(w) for w in res}) == 1:
+                        out.append(res[0])
+                    else:
+                        out.append(('alt', [(str(n_), w) for n_, w in enumerate(res)]))
+                    return shape.wcat(out)
                 out.append(self.plain_alt(e, impl, fn))
             elif k == 'star':
                 rng = strip(e[1])
@@ -218,6 +233,8 @@ class DecShapes:
             shp = [(str(d), self.term_shape(x, impl, fn)) for d, x in e[2]]
             if all(w == ('eps',) for _, w in shp):
                 return ('eps',)
+            if len({repr(w) for _, w in shp}) == 1:
+                return shp[0][1]   # both branches read the same thing (e.g. N element skips vs. a whole-array decode)
             return ('alt', shp)
         if isinstance(scrut, tuple) and scrut and scrut[0] == 'const' and scrut[1].endswith('TYPE_INFO'):
             return ('opaque', 'TYPE_INFO dispatch outside the vector kernel')
@@ -289,6 +306,11 @@ def _const_int(a):
         if a[0] == 'const' and a[2] is not None:
             return a[2]
     return None
+
+
+def _terminates(t):
+    its_ = items(t)
+    return bool(its_) and its_[-1][0] in ('RET', 'ERR', 'PANIC')
 
 
 def _pure_err(t):
